@@ -64,8 +64,10 @@ def classify_word(w):
 def t_token_en(t, exclude=''):
     """attribute set produced by the English annotators"""
     return {'word': t_word(t, exclude), 'lemma': t_word(t, exclude),
-            'pos': t.pick(['NN', 'VBZ', 'DT', '.', ',', '-LRB-']) if t.chance(150) else t_word(t, exclude, 4),
-            'entity': t.pick(['O', 'I-PER']) if t.chance(180) else t_word(t, exclude, 4),
+            # (POS is a real tag, the possessive, and also the filler the AUTO printer writes for untagged words;
+            # XX is the filler of the other columns)
+            'pos': t.pick(['NN', 'VBZ', 'DT', '.', ',', '-LRB-', 'POS', 'XX']) if t.chance(150) else t_word(t, exclude, 4),
+            'entity': t.pick(['O', 'I-PER', 'XX', 'POS']) if t.chance(180) else t_word(t, exclude, 4),
             'chunk': t.pick(['XX', 'I-NP']) if t.chance(180) else t_word(t, exclude, 4)}
 
 
